@@ -55,7 +55,11 @@ def strategy(tp):
         g = st.fixed_dictionaries({"op": st.just("get"), "u": st.integers(0, nurl - 1)})
         pr = st.fixed_dictionaries({"op": st.just("partial"), "u": st.integers(0, nurl - 1), "read": st.sampled_from([1, 2000, 9000, 30000, 60000, 130000])})
         fl = st.fixed_dictionaries({"op": st.just("fill"), "n": st.integers(4, 8), "size": st.sampled_from([300000, 150000, 300000])})
-        op = st.one_of(g, pr, fl, g, pr, fl, op)
+        # the whole hand-over as one step: (hit or miss), memory emptied, early-leaving reader, full reader
+        ho = st.fixed_dictionaries({"op": st.just("handover"), "u": st.integers(0, nurl - 1), "n": st.integers(4, 6), "size": st.just(300000),
+                                    "read": st.sampled_from([1, 2000, 9000, 30000, 60000, 130000])})
+        op = st.one_of(ho, g, pr, fl, ho, op)
+        size = st.one_of(st.sampled_from([32769, 70000, 200000, 390000, 16385, 50000, 100000]), size)
     return st.fixed_dictionaries({
         "store": st.just(store),
         "sizes": st.lists(st.lists(size, min_size=1, max_size=4), min_size=nurl, max_size=nurl),
@@ -178,7 +182,15 @@ def execute(envs, sc):
                     return None
         return v
 
-    for i, op in enumerate(sc["ops"]):
+    ops = []
+    for op in sc["ops"]:
+        if op["op"] == "handover":
+            ops += [{"op": "get", "u": op["u"]}, {"op": "fill", "n": op["n"], "size": op["size"]},
+                    {"op": "partial", "u": op["u"], "read": op["read"]}, {"op": "get", "u": op["u"]}]
+            r.label("op:handover")
+        else:
+            ops.append(op)
+    for i, op in enumerate(ops):
         kind = op["op"]
         if kind == "fill":
             for _ in range(op["n"]):
